@@ -248,6 +248,23 @@ func gen(rng *rand.Rand, tier core.Tier, emit core.Emit) {
 			mutateTCP(rng, func(b []byte) { emit("tcp", k, core.Hex(b)) })
 		}
 	}
+	// well-framed requests whose FILTER is hostile: a clause separator preceded by bytes that are not UTF-8 or whose case
+	// mapping changes their encoded width, followed by a short tail (a scanner that folds case must not index with the folded text)
+	for _, v := range []string{"\xc9\xc9\xc9\xc9\xc9\xc9\xc9\xc9", "\xff\xff\xff\xff", "\xe9t\xe9 \xe0 la carte", "\u0130\u0130\u0130\u0130\u0130\u0130", "\u212a\u212a\u212a\u212a",
+		"\u1e9e\u023a\u023e\u023a\u023e", "Smash And Grab", "\xc3\xc3\xc3\xc3\xc3\xc3 AND \xc3", "\xe2\x82\xe2\x82\xe2\x82"} {
+		for _, tail := range []string{"password=0", "a=1", "", "gamever='1.1'"} {
+			for _, sep := range []string{" and ", " AND ", " And "} {
+				for _, quoted := range []bool{true, false} {
+					val := v
+					if quoted {
+						val = "'" + v + "'"
+					}
+					f := "gametype=" + val + sep + tail
+					emit("tcp", "1", core.Hex(BrowserRequest(rng, f, []string{"hostname", "gametype"}, []byte{0, 0, 0, 0})))
+				}
+			}
+		}
+	}
 	// truncation of a valid browser request at EVERY offset
 	tr := 1
 	if tier == core.Thorough {
